@@ -6,6 +6,7 @@ EXTENDS Integers, Sequences, FiniteSets, TLC, Json
 G  == INSTANCE Grammar
 KF == INSTANCE KnownFindings
 RT == INSTANCE RoundTrip
+EJ == INSTANCE ExprJson
 
 CONSTANTS ResFile, VerdictFile, Prop, Shards
 Lines == ndJsonDeserialize(ResFile)
@@ -52,16 +53,19 @@ C12one(c, key, r, tag) == IF key \notin DOMAIN c THEN <<>>
                           ELSE IF RT!RtVerdict(c[key], r.tree) = "" THEN <<>>
                           ELSE <<Fail("C12", c, RT!RtVerdict(c[key], r.tree) \o tag, "none")>>
 C12(c) == C12one(c, "rt", c.res, "") \o C12one(c, "rtdf", c.resdf, " (default field)")
+\* conformance of the codec MECH (ExprJson.tla): the decoded tree is what the model says (drift, not a verdict)
+CodecConf(c, key, r) == key \notin DOMAIN c \/ c[key].dec # "ok" \/ c[key].tree2 = EJ!RoundTripped(r.tree, c[key].leaves)
+CodecDrift(c) == IF Prop = "C12" /\ ~(CodecConf(c, "rt", c.res) /\ CodecConf(c, "rtdf", c.resdf)) THEN 1 ELSE 0
 
 Judge(c) == CASE Prop = "C12" -> C12(c) [] Prop = "C01" -> C01(c) [] Prop = "C06" -> C06(c) [] Prop = "C10" -> C10(c) [] Prop = "C11" -> C11(c)
 
 \* the file is judged in Shards independent behaviours (shard sh takes lines sh+1, sh+1+Shards, ...), which
 \* TLC explores in parallel with -workers
-VARIABLES sh, n, last, fails, kfs, nfail, nkf, judged
-vars == <<sh, n, last, fails, kfs, nfail, nkf, judged>>
+VARIABLES sh, n, last, fails, kfs, nfail, nkf, judged, ndrift
+vars == <<sh, n, last, fails, kfs, nfail, nkf, judged, ndrift>>
 Open(f)  == SelectSeq(f, LAMBDA v : v.kf = "none")
 Known(f) == SelectSeq(f, LAMBDA v : v.kf # "none")
-Init == sh \in 0..(Shards - 1) /\ n = sh /\ last = <<>> /\ fails = <<>> /\ kfs = <<>> /\ nfail = 0 /\ nkf = 0 /\ judged = 0
+Init == sh \in 0..(Shards - 1) /\ n = sh /\ last = <<>> /\ fails = <<>> /\ kfs = <<>> /\ nfail = 0 /\ nkf = 0 /\ judged = 0 /\ ndrift = 0
 \* each step judges one line into `last` (evaluated exactly once) and files the previous line's verdicts
 Next == /\ n < Len(Lines) + Shards /\ n' = n + Shards /\ UNCHANGED sh
         /\ last' = IF n < Len(Lines) THEN Judge(Lines[n + 1]) ELSE <<>>
@@ -69,8 +73,9 @@ Next == /\ n < Len(Lines) + Shards /\ n' = n + Shards /\ UNCHANGED sh
         /\ kfs' = IF Len(kfs) >= 100 THEN kfs ELSE kfs \o Known(last)
         /\ nfail' = nfail + Len(Open(last)) /\ nkf' = nkf + Len(Known(last))
         /\ judged' = judged + (IF n < Len(Lines) THEN (IF Ok(Lines[n + 1].res) THEN 1 ELSE 0) + (IF Ok(Lines[n + 1].resdf) THEN 1 ELSE 0) ELSE 0)
+        /\ ndrift' = ndrift + (IF n < Len(Lines) THEN CodecDrift(Lines[n + 1]) ELSE 0)
 Spec == Init /\ [][Next]_vars
 Report == n >= Len(Lines) + Shards =>
-            /\ PrintT("JUDGED " \o ToJson([prop |-> Prop, shard |-> sh, accepted |-> judged, failures |-> nfail, known |-> nkf]))
+            /\ PrintT("JUDGED " \o ToJson([prop |-> Prop, shard |-> sh, accepted |-> judged, failures |-> nfail, known |-> nkf, drift |-> ndrift]))
             /\ ndJsonSerialize(VerdictFile \o "." \o ToString(sh), fails \o kfs)
 ========================================================================
